@@ -58,7 +58,7 @@ def step (a : List String) : String :=
   | ["uspless", a, b] => cmdUspLess a b
   | ["puny_enc", a] => cmdPunyEnc a
   | ["puny_dec", a] => cmdPunyDec a
-  | ["agg.edit", st, ed, arg] => cmdAggEdit st ed arg
+  | "agg.edit" :: st :: ed :: arg :: hints => cmdAggEdit st ed arg hints
   | ["agg.shape", st] => cmdAggShape st
   | "url.model" :: rest => cmdUrlModel rest
   | "url.set" :: rest => cmdUrlSet rest
